@@ -67,7 +67,7 @@ async def do_op(sim, request):
         if op.get("contexts") is not None:
             from ahbicht.content_evaluation.evaluationdatatypes import EvaluationContext
 
-            contexts = {k: EvaluationContext(scope=v) for k, v in op["contexts"].items()}
+            contexts = {k: EvaluationContext(scope=f"$['state-{v}']") for k, v in op["contexts"].items()}
         return await rc_evaluator.evaluate_conditions(op["keys"], evaluatable_data_provider(), contexts)
     if kind == "fc_direct":
         return await fc_evaluator.evaluate_format_constraints(op["keys"])
